@@ -1,0 +1,19 @@
+//go:build verif
+
+// Machine-checked contracts (gowp, see /verif/DESIGN.md). Comment-only file:
+// nothing here is compiled into the package.
+
+package isaacstates
+
+// ---- C06: the ballotbox's last point only moves forward ---------------------
+
+//@ func (*Ballotbox).SetLastPoint
+//@   prop C06
+//@   requires box.lsp != nil
+//@   requires validStage(point.stage)
+//@   requires wfLast(box.lsp.value)
+//@   modifies box.lsp.value, box.lsp.isempty
+//@   ensures [guarded] box.lsp.value == old(box.lsp.value) || (box.lsp.value == point && old(box.lsp.value).Before(point.StagePoint, point.isSuffrageConfirm))
+//@   ensures [height-mono] !old(box.lsp.value).IsZero() ==> box.lsp.value.h >= old(box.lsp.value).h
+//@   ensures [no-retake] !old(box.lsp.value).IsZero() && box.lsp.value != old(box.lsp.value) ==> !(box.lsp.value.StagePoint == old(box.lsp.value).StagePoint && box.lsp.value.isSuffrageConfirm == old(box.lsp.value).isSuffrageConfirm)
+//@   ensures [wf] wfLast(box.lsp.value)
